@@ -114,9 +114,12 @@ def main(argv):
             new = {k: v for k, v in res["keys"].items() if k not in base["keys"]}
             gone = [k for k in base["keys"] if k not in res["keys"]]
             ok = True
+            na = []
             for e in expected:
-                if e.startswith("!") :
-                    ok = ok and any(k.startswith(e[1:]) for k in base["keys"]) and not any(k.startswith(e[1:]) for k in res["keys"])
+                if e.startswith("!"):
+                    if not any(k.startswith(e[1:]) for k in base["keys"]):
+                        na.append(e[1:])  # the unchanged tree no longer shows this key (the patch was committed): nothing to remove
+                    ok = ok and not any(k.startswith(e[1:]) for k in res["keys"])
             for e in expected:
                 if e.startswith("~!"):
                     ok = ok and not any(k.startswith(e[2:]) for k in res["anomalies"])
@@ -128,6 +131,7 @@ def main(argv):
             if res["inconclusive"] or not res["evals"]:
                 ok = False
             print(f"  {'CAUGHT ' if ok else 'MISSED '} {b}: {desc}\n      new keys: {new}\n      gone keys: {gone}\n      anomalies: {res['anomalies']}"
+                  + (f"\n      already absent on this tree: {na}" if na else "")
                   + (f"\n      inconclusive: {res['inconclusive']}" if res["inconclusive"] else ""))
             if not ok:
                 not_caught.append((c, b))
